@@ -116,6 +116,7 @@ main (int argc, char **argv)
 		else if (!strcmp (op, "from_image"))
 		{
 		    int x, y, iw = vals[0], ih = vals[1];
+		    if (nv > 2 + iw * ih) vt_int ("pad", vals[2 + iw * ih]);
 		    fputs (",\"rows\":[", vt_out);
 		    for (y = 0; y < ih; y++)
 		    {
